@@ -220,14 +220,75 @@ theorem reach_inv19_migrated {s s' : State} (hsp : s.allowSp = []) (hnd : AMap.N
     (h : migrate s = .ok s') (ops : List (Block × Addr × Msg)) : Inv19 (run s' ops) ∧ Nodup19 (run s' ops) :=
   run_inv19 (migrate_pre014_establishes hsp hnd hv h) ops
 
+/-- Generalisation of `migrate_pre014_establishes`: the spender map need not be empty, it is enough
+that it has no entry whose mirrored key is absent from the owner map (stale entries would survive the
+rebuild); entries that are present but different are overwritten. -/
+theorem migrate_pre014_establishes_of_no_stale {s s' : State}
+    (hsp : ∀ o sp, s.allow.get? (o, sp) = none → s.allowSp.get? (sp, o) = none) (hnd : Nodup19 s)
+    (hv : verLt (s.version.major, s.version.minor, s.version.patch) (0, 14, 0) = true)
+    (h : migrate s = .ok s') : Inv19 s' ∧ Nodup19 s' := by
+  obtain ⟨e1, ⟨_, e2⟩ | ⟨hv', _⟩⟩ := migrate_ok h
+  · unfold Inv19 Nodup19
+    rw [e1, e2]
+    refine ⟨?_, hnd.1, nodup_rebuild _ _ hnd.2⟩
+    intro o sp
+    rw [get?_rebuild s.allow hnd.1]
+    cases hg : AMap.get? s.allow (o, sp) with
+    | none => simp [hsp o sp hg]
+    | some v => simp
+  · rw [hv] at hv'; cases hv'
+
+/-! ## Histories that contain migrations -/
+
+/-- An operation of a mixed history: an execute call or a `migrate` call. -/
+inductive Op where
+  | exec (blk : Block) (snd : Addr) (msg : Msg)
+  | migrate
+
+/-- One transaction of a mixed history; failing calls (also a refused `migrate`) are rolled back. -/
+def stepOp (s : State) : Op → State
+  | .exec blk snd msg => step s blk snd msg
+  | .migrate => match migrate s with
+    | .ok s' => s'
+    | .error _ => s
+
+def runOps (s : State) (ops : List Op) : State := ops.foldl stepOp s
+
+theorem stepOp_inv19 {s : State} (op : Op) (hi : Inv19 s ∧ Nodup19 s) :
+    Inv19 (stepOp s op) ∧ Nodup19 (stepOp s op) := by
+  cases op with
+  | exec blk snd msg => exact step_inv19 blk snd msg hi
+  | migrate =>
+    cases hm : migrate s with
+    | ok s' => simp only [stepOp, hm]; exact migrate_preserves hi.1 hi.2 hm
+    | error e => simp only [stepOp, hm]; exact hi
+
+theorem runOps_inv19 {s : State} (hi : Inv19 s ∧ Nodup19 s) (ops : List Op) :
+    Inv19 (runOps s ops) ∧ Nodup19 (runOps s ops) := by
+  induction ops generalizing s with
+  | nil => exact hi
+  | cons op rest ih => exact ih (stepOp_inv19 op hi)
+
+/-- **C19, main theorem with migrations**: after any accepted instantiation and any finite history of
+execute calls *and* `migrate` calls in any order, the two maps agree on every pair. -/
+theorem reach_inv19_mixed {m : InstMsg} {s : State} (h : instantiate m = .ok s) (ops : List Op) :
+    Inv19 (runOps s ops) ∧ Nodup19 (runOps s ops) :=
+  runOps_inv19 (instantiate_inv19 h) ops
+
+/-- … and the same after migrating a pre-0.14 state without spender map. -/
+theorem reach_inv19_migrated_mixed {s s' : State} (hsp : s.allowSp = []) (hnd : AMap.NodupKeys s.allow)
+    (hv : verLt (s.version.major, s.version.minor, s.version.patch) (0, 14, 0) = true)
+    (h : migrate s = .ok s') (ops : List Op) : Inv19 (runOps s' ops) ∧ Nodup19 (runOps s' ops) :=
+  runOps_inv19 (migrate_pre014_establishes hsp hnd hv h) ops
+
 /-! ## The three views -/
 
 /-- The owner listing's entry for `sp` is the `ALLOWANCES` entry for `(o, sp)`. -/
-theorem ownerPrefix_get? (s : State) (o sp : Addr) : (ownerPrefix s o).get? sp = s.allow.get? (o, sp) :=
+theorem ownerPrefix_lookup (s : State) (o sp : Addr) : (ownerPrefix s o).get? sp = s.allow.get? (o, sp) :=
   get?_pfx s.allow o sp
 
 /-- The spender listing's entry for `o` is the `ALLOWANCES_SPENDER` entry for `(sp, o)`. -/
-theorem spenderPrefix_get? (s : State) (o sp : Addr) : (spenderPrefix s sp).get? o = s.allowSp.get? (sp, o) :=
+theorem spenderPrefix_lookup (s : State) (o sp : Addr) : (spenderPrefix s sp).get? o = s.allowSp.get? (sp, o) :=
   get?_pfx s.allowSp sp o
 
 /-- **C19, view clause**: under the invariant, for valid `o`, `sp` the point query answers with the
@@ -238,10 +299,10 @@ theorem views_agree {s : State} (hi : Inv19 s) (o sp : AddrArg) (ho : o.valid = 
     ∧ (ownerPrefix s o.text).get? sp.text = (spenderPrefix s sp.text).get? o.text
     ∧ queryAllowance s o sp = .ok (((spenderPrefix s sp.text).get? o.text).getD Allowance.default) := by
   have e : (ownerPrefix s o.text).get? sp.text = (spenderPrefix s sp.text).get? o.text := by
-    rw [ownerPrefix_get?, spenderPrefix_get?]; exact hi o.text sp.text
+    rw [ownerPrefix_lookup, spenderPrefix_lookup]; exact hi o.text sp.text
   refine ⟨?_, e, ?_⟩
-  · simp [queryAllowance, ho, hs, ownerPrefix_get?]
-  · rw [← e]; simp [queryAllowance, ho, hs, ownerPrefix_get?]
+  · simp [queryAllowance, ho, hs, ownerPrefix_lookup]
+  · rw [← e]; simp [queryAllowance, ho, hs, ownerPrefix_lookup]
 
 /-- The complete (unpaged, ascending) listings contain the same entries: `(sp, a)` is listed for
 owner `o` iff `(o, a)` is listed for spender `sp`, iff `ALLOWANCES` holds `a` under `(o, sp)`.
@@ -252,9 +313,9 @@ theorem listings_agree {s : State} (hi : Inv19 s) (hn : Nodup19 s) (o sp : Addr)
   unfold Paginate.sortedEntries
   rw [List.mem_mergeSort, List.mem_mergeSort]
   constructor
-  · exact (mem_iff_get? (m := ownerPrefix s o) (nodup_pfx hn.1 o) sp a).trans (by rw [ownerPrefix_get?])
+  · exact (mem_iff_get? (m := ownerPrefix s o) (nodup_pfx hn.1 o) sp a).trans (by rw [ownerPrefix_lookup])
   · exact (mem_iff_get? (m := spenderPrefix s sp) (nodup_pfx hn.2 sp) o a).trans
-      (by rw [spenderPrefix_get?, ← hi o sp])
+      (by rw [spenderPrefix_lookup, ← hi o sp])
 
 /-- The listings never report a pair twice. -/
 theorem listings_nodup {s : State} (hn : Nodup19 s) (o sp : Addr) :
@@ -345,5 +406,18 @@ rebuilt last-write-wins. -/
 example : let s : State := { exLegacy with allow := [(("a", "b"), ⟨1, .never⟩), (("a", "b"), ⟨2, .never⟩)] }
     ∃ s', migrate s = .ok s' ∧ s'.allow.get? ("a", "b") ≠ s'.allowSp.get? ("b", "a") :=
   ⟨_, rfl, by decide⟩
+
+/-- A mixed history on the migrated legacy state: a draw, a second (no-op) `migrate`, a top-up. -/
+def exMixed : List Op :=
+  [ .exec exBlk "carol" (.transferFrom ⟨true, "alice"⟩ ⟨true, "carol"⟩ 20),
+    .migrate,
+    .exec exBlk "bob" (.increaseAllowance ⟨true, "carol"⟩ 1 (some (.atHeight 101))) ]
+
+example : (runOps exMigrated exMixed).allow.get? ("alice", "carol") = some ⟨0, .atHeight 200⟩
+    ∧ (runOps exMigrated exMixed).allowSp.get? ("carol", "alice") = some ⟨0, .atHeight 200⟩
+    ∧ (runOps exMigrated exMixed).allowSp.get? ("carol", "bob") = some ⟨31, .atHeight 101⟩ := by decide
+
+example : Inv19 (runOps exMigrated exMixed) ∧ Nodup19 (runOps exMigrated exMixed) :=
+  reach_inv19_migrated_mixed (s := exLegacy) rfl exLegacy_nodup (by decide) rfl exMixed
 
 end CwPlus.Props.C19
